@@ -278,6 +278,18 @@ fn structured_cases(ctx: &Ctx, scratch: &std::path::Path) -> Vec<Case> {
     }
     add("recursion/macro-arg-doubling", ".macro m\n.dq @0\n.endm\n.equ a0 = 1\n.equ a1 = a0+a0\n.equ a2 = a1+a1\n.equ a3 = a2+a2\nm a3+a3\n".into());
     add("recursion/equ-label-same-name", "a: .equ a = a\n.dw a\n".into());
+    // a macro that calls itself (or the next one) with an argument that grows at every level: glued,
+    // summed, doubled inside parentheses - the text doubles long before the nesting limit is reached
+    for (gn, grown) in [("glued", "@0@0"), ("summed", "@0+@0"), ("product", "(@0)*(@0)"), ("listed-in-db", "@0, @0"), ("string", "\"@0@0\""), ("second-arg", "1, @1@1")] {
+        add(&format!("recursion/macro-argument-doubling/self/{}", gn), format!(".macro m\n\tm {}\n.endm\n\tm a, b\n", grown));
+        add(&format!("recursion/macro-argument-doubling/self-with-emission/{}", gn), format!(".macro m\n\t.db @0\n\tm {}\n.endm\n\tm 1, 2\n", grown));
+        let mut chain = String::from(".macro c0\n\t.dw 1\n.endm\n");
+        for i in 1..=60 {
+            chain.push_str(&format!(".macro c{}\n\tc{} {}\n.endm\n", i, i - 1, grown));
+        }
+        chain.push_str("\tc60 7, 8\n");
+        add(&format!("recursion/macro-argument-doubling/chain-of-60/{}", gn), chain);
+    }
     // the same cycles and doubling ladders with every round passing through a function call, a unary
     // operator, parentheses or a comparison: each kind of sub-expression must count against the guards
     for (wn, open, close) in [
